@@ -51,13 +51,237 @@ type cgMethod struct {
 	rinits  map[string]string
 }
 
+// cgCur is the function being read: text is printed with its locals renamed by role (cgRoles), so that
+// renaming a local variable or the receiver changes neither the table nor what the matchers see.
+var cgCur map[string]string
+
 func cgExprString(r *Repo, e ast.Node) string {
 	var b bytes.Buffer
-	printer.Fprint(&b, r.Fset, e)
+	if cgCur == nil {
+		printer.Fprint(&b, r.Fset, e)
+	} else {
+		b.WriteString(cgAlphaWith(r.Fset, e, cgCur))
+	}
 	return strings.Join(strings.Fields(b.String()), " ")
 }
 
+// cgAlphaWith is AlphaPrint (alpha.go) with a given renaming.
+func cgAlphaWith(fset *token.FileSet, node ast.Node, names map[string]string) string {
+	skip := map[*ast.Ident]bool{}
+	ast.Inspect(node, func(n ast.Node) bool {
+		switch x := n.(type) {
+		case *ast.SelectorExpr:
+			skip[x.Sel] = true
+		case *ast.KeyValueExpr:
+			if id, ok := x.Key.(*ast.Ident); ok {
+				skip[id] = true
+			}
+		case *ast.LabeledStmt:
+			skip[x.Label] = true
+		case *ast.BranchStmt:
+			if x.Label != nil {
+				skip[x.Label] = true
+			}
+		}
+		return true
+	})
+	type sv struct {
+		id   *ast.Ident
+		name string
+	}
+	var saved []sv
+	ast.Inspect(node, func(n ast.Node) bool {
+		if id, ok := n.(*ast.Ident); ok && !skip[id] {
+			if nn, ok := names[id.Name]; ok {
+				saved = append(saved, sv{id, id.Name})
+				id.Name = nn
+			}
+		}
+		return true
+	})
+	var buf bytes.Buffer
+	printer.Fprint(&buf, fset, node)
+	for _, s := range saved {
+		s.id.Name = s.name
+	}
+	return buf.String()
+}
+
+// cgRoles: the renaming of fd's locals.  Parameters keep their names (they are the keys of the model's
+// argument environment); the receiver is "c"; a local gets the name of its role when its declaration
+// shows it (the fid taken from the pool, a reply/request literal, an error that is tested, ...), else its
+// positional name (alpha.go).
+func cgRoles(fd *ast.FuncDecl) map[string]string {
+	names := LocalNames(fd)
+	used := map[string]bool{}
+	set := func(e ast.Expr, role string) {
+		if id, ok := e.(*ast.Ident); ok && id.Name != "_" {
+			if _, local := names[id.Name]; local {
+				names[id.Name] = role
+				used[role] = true
+			}
+		}
+	}
+	if fd.Recv != nil {
+		for _, f := range fd.Recv.List {
+			for _, n := range f.Names {
+				names[n.Name] = "c"
+			}
+		}
+	}
+	params := map[string]bool{}
+	for _, f := range fd.Type.Params.List {
+		for _, n := range f.Names {
+			names[n.Name] = n.Name
+			params[n.Name] = true
+		}
+	}
+	selEnds := func(e ast.Expr, a, b string) bool { // ....a.b(...)
+		call, ok := e.(*ast.CallExpr)
+		if !ok {
+			return false
+		}
+		s, ok := call.Fun.(*ast.SelectorExpr)
+		if !ok || s.Sel.Name != b {
+			return false
+		}
+		if a == "" {
+			return true
+		}
+		switch x := s.X.(type) {
+		case *ast.SelectorExpr:
+			return x.Sel.Name == a
+		case *ast.Ident:
+			return x.Name == a
+		}
+		return false
+	}
+	typeName := func(e ast.Expr) string {
+		if st, ok := e.(*ast.StarExpr); ok {
+			e = st.X
+		}
+		if id, ok := e.(*ast.Ident); ok {
+			return id.Name
+		}
+		return ""
+	}
+	ast.Inspect(fd.Body, func(n ast.Node) bool {
+		switch x := n.(type) {
+		case *ast.AssignStmt:
+			if x.Tok != token.DEFINE || len(x.Rhs) != 1 {
+				return true
+			}
+			rhs := x.Rhs[0]
+			switch {
+			case selEnds(rhs, "fidPool", "Get") && len(x.Lhs) == 2:
+				set(x.Lhs[0], "id")
+				set(x.Lhs[1], "ok")
+			case selEnds(rhs, "tagPool", "Get") && len(x.Lhs) == 2:
+				set(x.Lhs[0], "t")
+				set(x.Lhs[1], "ok")
+			}
+			if ta, ok := rhs.(*ast.TypeAssertExpr); ok {
+				if selEnds(ta.X, "responsePool", "Get") {
+					set(x.Lhs[0], "resp")
+				} else if len(x.Lhs) == 2 {
+					set(x.Lhs[1], "ok")
+				}
+			}
+			if tn, lit := cgLitType(rhs); lit != nil && len(x.Lhs) == 1 {
+				if strings.HasPrefix(tn, "r") {
+					set(x.Lhs[0], tn)
+				} else if strings.HasPrefix(tn, "t") {
+					set(x.Lhs[0], "msg")
+				}
+			}
+			if call, ok := rhs.(*ast.CallExpr); ok {
+				if f, ok := call.Fun.(*ast.Ident); ok {
+					switch {
+					case f.Name == "send" && len(x.Lhs) == 1:
+						set(x.Lhs[0], "err")
+					case f.Name == "recv" && len(x.Lhs) == 3:
+						set(x.Lhs[0], "t")
+						set(x.Lhs[1], "r")
+						set(x.Lhs[2], "err")
+					}
+				}
+				if selEnds(rhs, "", "sendRecv") && len(x.Lhs) == 1 {
+					set(x.Lhs[0], "err")
+				}
+				if selEnds(rhs, "errors", "As") && len(x.Lhs) == 1 {
+					set(x.Lhs[0], "fatal")
+				}
+			}
+			if id, ok := rhs.(*ast.Ident); ok && id.Name == "true" && len(x.Lhs) == 1 {
+				set(x.Lhs[0], "recycle")
+			}
+			if ix, ok := rhs.(*ast.IndexExpr); ok && len(x.Lhs) == 1 {
+				if s, ok := ix.X.(*ast.SelectorExpr); ok && s.Sel.Name == "pending" {
+					set(x.Lhs[0], "resp")
+				}
+			}
+			if se, ok := rhs.(*ast.SelectorExpr); ok && se.Sel.Name == "broken" && len(x.Lhs) == 1 {
+				set(x.Lhs[0], "err")
+			}
+			if be, ok := rhs.(*ast.BinaryExpr); ok && len(x.Lhs) == 1 {
+				if s, ok := be.X.(*ast.SelectorExpr); ok && s.Sel.Name == "messageSize" {
+					set(x.Lhs[0], "max")
+				}
+			}
+		case *ast.ValueSpec:
+			if len(x.Names) == 1 {
+				switch typeName(x.Type) {
+				case "response":
+					set(x.Names[0], "found")
+				case "ConnError":
+					set(x.Names[0], "connErr")
+				}
+			}
+		case *ast.FuncLit:
+			for _, f := range x.Type.Params.List {
+				for _, nm := range f.Names {
+					switch typeName(f.Type) {
+					case "tag":
+						set(nm, "t")
+					case "msgType":
+						set(nm, "mt")
+					}
+				}
+			}
+		case *ast.RangeStmt:
+			if s, ok := x.X.(*ast.SelectorExpr); ok && s.Sel.Name == "pending" && x.Value != nil {
+				set(x.Value, "resp")
+			}
+		case *ast.IfStmt:
+			// an error that is tested: `x != nil`, `x != nil && ...`
+			c := x.Cond
+			if be, ok := c.(*ast.BinaryExpr); ok && be.Op == token.LAND {
+				c = be.X
+			}
+			if be, ok := c.(*ast.BinaryExpr); ok && be.Op == token.NEQ {
+				if y, ok := be.Y.(*ast.Ident); ok && y.Name == "nil" {
+					if id, ok := be.X.(*ast.Ident); ok && !params[id.Name] {
+						set(be.X, "err")
+					}
+				}
+			}
+		}
+		return true
+	})
+	return names
+}
+
 func cgQ(s string) string { return CoqString(s) }
+
+// cgRole is the role name of a local of the function being read (or the name itself).
+func cgRole(name string) string {
+	if cgCur != nil {
+		if n, ok := cgCur[name]; ok {
+			return n
+		}
+	}
+	return name
+}
 
 func (m *cgMethod) isParam(n string) bool {
 	for _, p := range m.params {
@@ -85,7 +309,7 @@ func (m *cgMethod) src(r *Repo, e ast.Expr) (string, error) {
 		}
 	case *ast.SelectorExpr:
 		if x, ok := v.X.(*ast.Ident); ok && v.Sel.Name == "fid" {
-			if x.Name == "c" {
+			if cgRole(x.Name) == "c" {
 				return "GRecvFid", nil
 			}
 			if p, ok := m.asserts[x.Name]; ok {
@@ -95,7 +319,7 @@ func (m *cgMethod) src(r *Repo, e ast.Expr) (string, error) {
 	case *ast.CallExpr:
 		if f, ok := v.Fun.(*ast.Ident); ok && len(v.Args) == 1 {
 			if f.Name == "fid" {
-				if id, ok := v.Args[0].(*ast.Ident); ok && id.Name == "id" && m.fidGet {
+				if id, ok := v.Args[0].(*ast.Ident); ok && cgRole(id.Name) == "id" && m.fidGet {
 					return "GNewFid", nil
 				}
 			}
@@ -137,7 +361,7 @@ func (m *cgMethod) fieldsOf(r *Repo, lit *ast.CompositeLit, prefix string, over 
 			continue
 		}
 		if id, ok := val.(*ast.Ident); ok {
-			if loc, ok := m.locals[id.Name]; ok {
+			if loc, ok := m.locals[cgRole(id.Name)]; ok {
 				fs, err := m.fieldsOf(r, loc, prefix, m.over)
 				if err != nil {
 					return nil, err
@@ -185,7 +409,7 @@ func (m *cgMethod) sendCall(r *Repo, e ast.Expr, cond string) (*cgSend, error) {
 	targ := call.Args[0]
 	if u, ok := targ.(*ast.UnaryExpr); ok && u.Op == token.AND {
 		if id, ok := u.X.(*ast.Ident); ok {
-			loc, ok := m.locals[id.Name]
+			loc, ok := m.locals[cgRole(id.Name)]
 			if !ok {
 				return nil, r.Refuse(targ.Pos(), "sendRecv of unknown variable %s in %s", id.Name, m.name)
 			}
@@ -218,8 +442,8 @@ func (m *cgMethod) sendCall(r *Repo, e ast.Expr, cond string) (*cgSend, error) {
 		s.rname = rn
 	} else if u, ok := rarg.(*ast.UnaryExpr); ok && u.Op == token.AND {
 		if id, ok := u.X.(*ast.Ident); ok {
-			s.rname = m.rtypes[id.Name]
-			s.rinit = m.rinits[id.Name]
+			s.rname = m.rtypes[cgRole(id.Name)]
+			s.rinit = m.rinits[cgRole(id.Name)]
 		}
 	}
 	if s.rname == "" {
@@ -235,7 +459,7 @@ func cgIsErrNotNil(e ast.Expr) bool {
 	}
 	x, ok1 := b.X.(*ast.Ident)
 	y, ok2 := b.Y.(*ast.Ident)
-	return ok1 && ok2 && x.Name == "err" && y.Name == "nil"
+	return ok1 && ok2 && cgRole(x.Name) == "err" && y.Name == "nil"
 }
 
 func (m *cgMethod) rets(r *Repo, ret *ast.ReturnStmt) []string {
@@ -506,8 +730,11 @@ func cgHandleOne(r *Repo, fd *ast.FuncDecl) (bool, error) {
 
 // cgMarksDead: does the receiver remember a ConnError (handleOne sets c.broken, sendRecv refuses to register once it is set)?
 func cgMarksDead(r *Repo, ho, sr *ast.FuncDecl) (bool, error) {
+	cgCur = cgRoles(ho)
 	h := cgExprString(r, ho.Body)
+	cgCur = cgRoles(sr)
 	s := cgExprString(r, sr.Body)
+	cgCur = nil
 	sets := strings.Contains(h, "var connErr ConnError fatal := errors.As(err, &connErr) c.pendingMu.Lock() if fatal && c.broken == nil { c.broken = err } for _, resp := range c.pending")
 	checks := strings.Contains(s, "c.pendingMu.Lock() if c.broken != nil { err := c.broken c.pendingMu.Unlock() return fmt.Errorf(\"connection broken: %w\", err) } c.pending[tag(t)] = resp c.pendingMu.Unlock()")
 	if strings.Contains(h, "broken") != sets || strings.Contains(s, "broken") != checks || sets != checks {
@@ -521,7 +748,7 @@ func cgReleaseFID(r *Repo, fd *ast.FuncDecl) (string, error) {
 	if fd == nil {
 		return "", nil
 	}
-	if cgExprString(r, fd.Body) == "{ if _, refused := err.(linux.Errno); refused { c.fidPool.Put(id) } }" {
+	if cgExprString(r, fd.Body) == "{ if _, ok := err.(linux.Errno); ok { c.fidPool.Put(id) } }" {
 		return "refused", nil
 	}
 	return "", r.Refuse(fd.Pos(), "releaseFID body %s", cgExprString(r, fd.Body))
@@ -549,6 +776,7 @@ func runClientGen(r *Repo) (string, error) {
 		if rt != "clientFile" && !(rt == "Client" && fd.Name.Name == "Attach") && !(rt == "Client" && fd.Name.Name == "newFile") {
 			return "", r.Refuse(fd.Pos(), "method of unexpected receiver %s in client_file.go", rt)
 		}
+		cgCur = cgRoles(fd)
 		m := &cgMethod{name: fd.Name.Name, asserts: map[string]string{}, clamped: map[string]bool{}, locals: map[string]*ast.CompositeLit{},
 			over: map[string]ast.Expr{}, rtypes: map[string]string{}, rinits: map[string]string{}}
 		for _, f := range fd.Type.Params.List {
@@ -585,6 +813,7 @@ func runClientGen(r *Repo) (string, error) {
 		}
 		ms = append(ms, m)
 	}
+	cgCur = nil
 	sort.Slice(ms, func(i, j int) bool { return ms[i].name < ms[j].name })
 	decls, err := r.FuncDecls("p9")
 	if err != nil {
@@ -594,7 +823,9 @@ func runClientGen(r *Repo) (string, error) {
 	if !ok {
 		return "", fmt.Errorf("Client.sendRecv not found")
 	}
+	cgCur = cgRoles(sr)
 	wd, keep, regFirst, err := cgSendRecv(r, sr)
+	cgCur = nil
 	if err != nil {
 		return "", err
 	}
@@ -602,7 +833,9 @@ func runClientGen(r *Repo) (string, error) {
 	if !ok {
 		return "", fmt.Errorf("Client.handleOne not found")
 	}
+	cgCur = cgRoles(ho)
 	chk, err := cgHandleOne(r, ho)
+	cgCur = nil
 	if err != nil {
 		return "", err
 	}
@@ -610,7 +843,11 @@ func runClientGen(r *Repo) (string, error) {
 	if err != nil {
 		return "", err
 	}
+	if rf := decls["Client.releaseFID"]; rf != nil {
+		cgCur = cgRoles(rf)
+	}
 	rel, err := cgReleaseFID(r, decls["Client.releaseFID"])
+	cgCur = nil
 	if err != nil {
 		return "", err
 	}
